@@ -18,7 +18,7 @@ PLAN = dict(
           "accepted), the pattern with all braces/commas removed; for the exhaustive part all 121 strings of "
           "length <= 4 over {a,b,','}. Expected: compiles iff braces are properly nested; matches iff some "
           "string of the reference csh expansion, compiled as a pattern in its own right, matches. "
-          "Non-trivial = >= 2 groups or nesting depth >= 2; distinct by fingerprint of (pattern, names). Later additions: a structural sweep (1..70 and 100..300 groups side by side / nested / nested with alternatives, 1 000-10 000 single-alternative groups, 2^1..2^12 and 3^1..3^7 expansions with names matched only by the last expansion); tails in which a token occurs twice; names truncated at a '-', with a piece cut out, with a leading piece repeated, and made of what stands around the groups. Round 7: groups wrapped in character-class heads ('[', '[!', '[]', '[!]', '[^]', ...) and names that match an expansion through the class. Round 8: every pair of the metacharacters * ? [ ] ! - < > = directly behind a group, behind it and followed by '/x', in front of it, and as an alternative inside it."),
+          "Non-trivial = >= 2 groups or nesting depth >= 2; distinct by fingerprint of (pattern, names). Later additions: a structural sweep (1..70 and 100..300 groups side by side / nested / nested with alternatives, 1 000-10 000 single-alternative groups, 2^1..2^12 and 3^1..3^7 expansions with names matched only by the last expansion); tails in which a token occurs twice; names truncated at a '-', with a piece cut out, with a leading piece repeated, and made of what stands around the groups. Round 7: groups wrapped in character-class heads ('[', '[!', '[]', '[!]', '[^]', ...) and names that match an expansion through the class. Round 8: every pair of the metacharacters * ? [ ] ! - < > = directly behind a group, behind it and followed by '/x', in front of it, and as an alternative inside it. Round 9: names sampled from the language of whole expansions (wildcards filled from an alphabet with multi-byte characters; a comparison expansion's base with versions around its bounds); '?' among the ordinary literals and valid operators among the odd ones."),
     exhaustive={"quick": "all strings of length <= 6 over {'{','}',',','a','b'} containing a brace (without '{}') x 121 names",
                 "thorough": "all strings of length <= 8 over {'{','}',',','a','b'} containing a brace (without '{}') x 121 names"},
     technique="runtime monitor: differential test of alternation matching against a reference csh brace expander whose expansions are judged by the real matcher",
